@@ -2,7 +2,7 @@
 # matrix.sh: every seeded change against every quick check; results into seeded/*/meta.json and /verif/seeded/MATRIX.txt
 cd /verif
 : > /tmp/matrix.log
-for d in seeded/*/; do
+for d in seeded/${MATRIX_GLOB:-*}/; do
   n=$(basename $d)
   tools/try_seed.sh $n C01 C02 C03 C04 C05 C06 C07 C08 C09 C10 C11 C12 C13 C14 C15 C16 >> /tmp/matrix.log 2>&1
 done
